@@ -145,7 +145,7 @@ theorem pollDispatch_reg (w w' : World) (op : Nat) (rest : List K) (hI : RegInv 
           | (cases h
              rename_i hc
              simp only [Bool.and_eq_true, beq_iff_eq] at hc
-             apply regInv_objs (w := setObj { w with pending := w.pending - 1 } { o with evR := false, tstate := .ready, cancelledRep := false }) _ rfl
+             apply regInv_objs (w := setObj { w with pending := w.pending - 1 } { o with evR := false, tstate := .ready, cancelledRep := (o.cancelledRep && info.kind != OpKind.timerRep) }) _ rfl
              apply regInv_setObj (regInv_objs hI rfl)
              exact regOk_timer hc.1.1)
           | (cases h; exact regInv_objs (delRead_reg hI) rfl)
